@@ -24,6 +24,11 @@ CHECKS = {
    text="Proved: a Normal key wrapping data dictionary survives flattening into the 32 columns and the any()-based reconstruction exactly (wrapping_roundtrip), absent stays absent, and the all-falsy parameter sets are characterised as the ones that are dropped (witness); Register stores exactly the registered type, value bytes, key format, type-specific field, and algorithm/length for keys whatever the template says; Get returns exactly the stored fields (SecretData always reported with key format Opaque - witness); over any later history and restarts value, type, algorithm, length, format and type-specific field of a stored object never change; server-assigned attributes (owner, initial date, default policy name, Pre-Active). Tied to /repo end to end: every one of the seven object types (19 value/format kinds incl. wrapped keys and multi-name objects) is registered through the real ProxyKmipClient, encoded, decoded by the server-side decoder, processed by the real engine with real cryptography and SQLite, the engine re-created on the same file for two thirds of the cases, and read back with Get / GetAttributes / GetAttributeList under each of the six versions; field-wise equality and exact attribute sets are the monitor. The wire hop relies on C01.",
    note=TRUST + "Partial: pie-level objects only express what the pie API can express (e.g. SecretData has no key format parameter); the SQLAlchemy/SQLite round trip is exercised, not modelled.",
    ref="§5 C05"),
+ "C06": dict(
+   technique="Lean 4: padding laws by arithmetic/list induction, plan (parameter plumbing) theorems, composition with an abstract invertible cipher, decide over regenerated look-up tables; implementation compared with independent references",
+   text="PARTIAL (primitives are OpenSSL's). Proved: PKCS#7 and ANSI X9.23 unpad(pad d) = d and padded length is a multiple of the block for every block size and message; for every parameter tuple Encrypt accepts: padding is applied exactly for block ciphers in CBC/ECB, an IV/nonce is generated exactly when the mode takes one and the client sent none (block-sized), Decrypt with the same parameters and that IV selects the same primitive/mode/IV/padding/GCM flag, and Decrypt(Encrypt m) = m under the hypothesis that the backend cipher is invertible; the regenerated tables map every digital-signature / hashing / HMAC algorithm to the hash its name says, block sizes are positive, exactly ECB takes no IV, PKCS5 -> PKCS7 and ANSI_X923 -> ANSIX923. Tied to /repo: the whole (algorithm, mode, padding, IV, AAD, tag length) grid is run on the real CryptographyEngine and on the plan model (acceptance, IV generation, padding, alignment), padding bytes compared byte for byte; monitors on the real engine: Decrypt o Encrypt = id, GCM rejects modified ciphertext/tag/AAD, ciphertext equals an independent use of the cipher, Sign/SignatureVerify with RSA pairs from create_asymmetric_key_pair incl. an independent verifier, HMAC/CMAC/PBKDF2/HKDF/SP800-108-counter/RFC3394 against references written from hashlib/hmac and the RFCs, key/IV lengths and non-repetition.",
+   note=TRUST + "Not modelled: correctness of OpenSSL primitives, unpredictability of os.urandom (freshness is only checked as non-repetition).",
+   ref="§5 C06"),
  "C07": dict(
    technique="Lean 4 store invariant (strictly increasing identifiers below the sequence) proved for every effect and lifted over histories with restarts",
    text="Proved: identifiers of stored objects are pairwise distinct in every reachable state; objects appearing later carry either an identifier already present or one >= the old sequence value (never reused); an issued identifier that is no longer stored never reappears, across any history and restarts; operations on it answer Item Not Found with the standard text; Locate returns only live, permitted identifiers. Tied to /repo by histories biased to destroy-newest-then-create / restart-then-create with the engine re-created on the same SQLite file.",
